@@ -16,6 +16,8 @@ CONSTANTS
   Crashes = FALSE
   StartBy = 0
   HealOdds = 3
+  ListLag = FALSE
+  FixSkew = FALSE
 VIEW View
 INVARIANTS TypeOK InvExclusion InvHolderHasFile InvNotStale InvFresh
 CHECK_DEADLOCK FALSE
